@@ -4,13 +4,20 @@ package main
 
 import (
 	be "github.com/echoface/be_indexer"
+	"sort"
 )
 
 const hooksAvailable = true
 
 // indexEntries all posting-list entries and the wildcard entries of a built index.
+// indexEntries: every posting-list entry and the wildcard entries, as multisets (sorted: the hook walks Go maps)
 func indexEntries(index be.BEIndex) (entries, z []uint64, ok bool) {
-	return be.VerifIndexEntries(index)
+	entries, z, ok = be.VerifIndexEntries(index)
+	entries = append([]uint64{}, entries...)
+	z = append([]uint64{}, z...)
+	sort.Slice(entries, func(i, j int) bool { return entries[i] < entries[j] })
+	sort.Slice(z, func(i, j int) bool { return z[i] < z[j] })
+	return
 }
 
 func fieldTablesShared(b *be.IndexerBuilder, index be.BEIndex) (shared, ok bool) {
